@@ -671,6 +671,68 @@ func c13MisuseScenario(w *core.W, kind string, seed uint64) {
 	e2.finish([]*c13Req{r2}, true)
 }
 
+// scenario: the application's NotifyStartedFunc takes its time (it logs, signals a supervisor, ...).
+// While it runs the server counts as started: a second start and a Shutdown bound by a context
+// return - they do not wait for the callback.
+func c13SlowNotifyScenario(w *core.W, kind string, seed uint64) {
+	e := newC13Env(w, kind, "slow-notify", seed)
+	defer sched.Use(nil)
+	release := make(chan struct{})
+	entered := make(chan struct{})
+	var once sync.Once
+	e.srv.NotifyStartedFunc = func() {
+		e.ctl.Note("started", "")
+		once.Do(func() { close(entered) })
+		<-release
+	}
+	go func() { e.serveErr <- e.srv.ActivateAndServe() }()
+	select {
+	case <-entered:
+	case err := <-e.serveErr:
+		close(release)
+		e.w.Inconclusive("c13-start-failed:" + kind + ":" + fmt.Sprint(err))
+		return
+	case <-time.After(c13Watch):
+		close(release)
+		e.w.Inconclusive("c13-start-timeout:" + kind)
+		return
+	}
+	w.Count("scenarios", 1)
+	w.Count("scenarios_"+kind, 1)
+	errc := make(chan error, 1)
+	go func() { errc <- e.srv.ActivateAndServe() }()
+	select {
+	case err := <-errc:
+		if err == nil {
+			e.viol("second-start-succeeds", "starting an already started server returned nil")
+		}
+	case <-time.After(c13Watch):
+		e.viol("second-start-blocks", "starting an already started server blocks while NotifyStartedFunc of the first start is still running")
+		close(release)
+		return
+	}
+	ctx, cancel := context.WithTimeout(context.Background(), 30*time.Millisecond)
+	defer cancel()
+	sdc := make(chan error, 1)
+	go func() { sdc <- e.srv.ShutdownContext(ctx) }()
+	select {
+	case <-sdc:
+	case <-time.After(c13Watch):
+		e.viol("shutdowncontext-does-not-return", "ShutdownContext did not return after its context expired (NotifyStartedFunc still running)")
+		close(release)
+		return
+	}
+	close(release)
+	select {
+	case err := <-e.serveErr:
+		if err != nil {
+			e.viol("serve-returns-error", fmt.Sprintf("the serve call returned %v after shutdown", err))
+		}
+	case <-time.After(c13Watch):
+		e.viol("serve-does-not-return", "the serve call did not return after shutdown and the end of NotifyStartedFunc")
+	}
+}
+
 // scenario: a start that fails must not leave the server marked as started.
 func c13FailedStartScenario(w *core.W, variant int, seed uint64) {
 	e := newC13Env(w, "none", fmt.Sprintf("failed-start/%d", variant), seed)
@@ -1207,6 +1269,9 @@ func c13Cases() []c13Case {
 		if kind == "tcp-sim" || kind == "pc-sim" {
 			cs = append(cs, c13Case{kind + " pause", func(w *core.W, s uint64) { c13PauseScenario(w, kind, s) }})
 		}
+		if kind == "tcp-sim" || kind == "pc-sim" {
+			cs = append(cs, c13Case{kind + " slow notify", func(w *core.W, s uint64) { c13SlowNotifyScenario(w, kind, s) }})
+		}
 	}
 	for v := 0; v < 4; v++ {
 		v := v
@@ -1245,7 +1310,7 @@ func init() {
 	core.Register(&core.Monitor{
 		ID: "C13", Level: "exploration", Plan: plan, Run: run, Race: true, Terminates: true, MaxParallel: 8, CaseTimeout: 240e9,
 		Rule: fmt.Sprintf("%d scripted scenarios (each run 2x quick / 12x thorough): transports {tcp-sim, pc-sim, tls-sim over netsim; tcp/udp real loopback} x Shutdown steered against every hook point in both release orders with 0/1/3 requests, "+
-			"0..3 held handlers with plain and context-expiring shutdown, misuse (shutdown unstarted, second start, 4 concurrent shutdowns, restart), failed starts, pauses inside SetReadDeadline; plus seeded random hook delays with 1..6 concurrent clients; "+
+			"0..3 held handlers with plain and context-expiring shutdown, misuse (shutdown unstarted, second start, 4 concurrent shutdowns, restart), failed starts, pauses inside SetReadDeadline, a NotifyStartedFunc that does not return while a second start and a context-bound Shutdown are made; plus seeded random hook delays with 1..6 concurrent clients; "+
 			"offline checker over the logical-clock event log (handler enter/exit vs shutdown return, replies delivered, serve return nil, goroutine/connection leaks); race detector on; non-trivial = distinct (transport, scenario, observed event order)", n),
 		Assumptions: []string{"liveness restated as bounded progress: an operation that normally takes microseconds not finishing within 15 s is 'does not return'",
 			"read/idle timeouts are set to 1 h so that a re-armed read deadline cannot be masked by the defaults"},
